@@ -13,7 +13,7 @@ open Nstd.Generated.AvlRot
 theorem clear_loop_eq : ∀ (is : List Nat) (h : Heap) (p pv fuel : Nat) (fl : List Nat),
     DList h p pv is → FreeRepr h h.freeItem fl → is.Nodup → (∀ j ∈ is, j ∉ fl) →
     (∀ j, j ∈ is ∨ j ∈ fl → j + 1 ≠ h.endItem) → is.length < fuel →
-    ∃ h', Map.clear_loop fuel h p h.endItem = some h' ∧ h'.root = 0 ∧ h'.size = 0 ∧ h'.beginItem = h.endItem ∧
+    ∃ h', Map.clear_loop fuel h p = some h' ∧ h'.root = 0 ∧ h'.size = 0 ∧ h'.beginItem = h.endItem ∧
       h'.endItem = h.endItem ∧ h'.prev h.endItem = 0 ∧ FreeRepr h' h'.freeItem (is.reverse ++ fl) ∧
       h'.nblocks = h.nblocks := by
   intro is
@@ -76,18 +76,18 @@ theorem clear_loop_eq : ∀ (is : List Nat) (h : Heap) (p pv fuel : Nat) (fl : L
               · exact he j (Or.inl (by simp [e']))
               · exact he j (Or.inr e'))
         (by simp only [List.length_cons] at hfu; omega)
-      rw [hE1] at r1 r4 r5 r6
+      rw [hE1] at r4 r5 r6
       have hnx : (h.setPrev p h.freeItem).setFree p = h1 := eh1.symm
       refine ⟨h', ?_, r2, r3, r4, r5, r6, ?_, by rw [r8, eh1]; rfl⟩
-      · show Map.clear_loop f ((h.setPrev p h.freeItem).setFree p) (((h.setPrev p h.freeItem).setFree p).next p) h.endItem = some h'
+      · show Map.clear_loop f ((h.setPrev p h.freeItem).setFree p) (((h.setPrev p h.freeItem).setFree p).next p) = some h'
         rw [hnx, hn1]; exact r1
       · simpa [List.reverse_cons, List.append_assoc] using r7
 
-theorem multi_clear_loop : ∀ (fuel : Nat) (h : Heap) (p e : Nat), Multi.clear_loop fuel h p e = Map.clear_loop fuel h p e := by
+theorem multi_clear_loop : ∀ (fuel : Nat) (h : Heap) (p : Nat), Multi.clear_loop fuel h p = Map.clear_loop fuel h p := by
   intro fuel
   induction fuel with
-  | zero => intro h p e; rw [Multi.clear_loop, Map.clear_loop]
-  | succ f ih => intro h p e; rw [Multi.clear_loop, Map.clear_loop]; simp only [ih]
+  | zero => intro h p; rw [Multi.clear_loop, Map.clear_loop]
+  | succ f ih => intro h p; rw [Multi.clear_loop, Map.clear_loop]; simp only [ih]
 
 /-- the translated `clear()` of one header -/
 def clearCode (multi : Bool) : Nat → Heap → Option Heap := if multi then Multi.clear else Map.clear
